@@ -1,0 +1,57 @@
+//go:build verif
+
+package ocsp
+
+import (
+	"crypto/x509"
+	"time"
+
+	"github.com/gr33nbl00d/caddy-revocation-validator/core"
+	"github.com/muesli/cache2go"
+	"golang.org/x/crypto/ocsp"
+)
+
+// Verification-only accessors (build tag verif) for the OCSP response parser, the responder filter and the cache.
+
+// VerifParseOcspResponse runs parseOcspResponse with the given certificates as issuer candidates.
+func (c *OCSPRevocationChecker) VerifParseOcspResponse(clientCertificate *x509.Certificate, candidates []*x509.Certificate, output []byte) (*ocsp.Response, error) {
+	entries := make([]*core.CertificateChainEntry, 0, len(candidates))
+	for _, candidate := range candidates {
+		entries = append(entries, &core.CertificateChainEntry{RawCertificate: candidate.Raw, Certificate: candidate})
+	}
+	return c.parseOcspResponse(clientCertificate, entries, output, "verif")
+}
+
+func (c *OCSPRevocationChecker) VerifFilterHTTPOCSPServers(ocspServerList []string) []string {
+	return c.filterHTTPOCSPServers(ocspServerList)
+}
+
+// VerifCacheEntry describes one item of the cache table without keeping it alive.
+type VerifCacheEntry struct {
+	Key        string
+	Revoked    bool
+	ValidUntil time.Time
+	LifeSpan   time.Duration
+	CreatedOn  time.Time
+	AccessedOn time.Time
+}
+
+// VerifCacheEntries lists the items of the checker's cache table (Foreach does not refresh the items).
+func (c *OCSPRevocationChecker) VerifCacheEntries() []VerifCacheEntry {
+	result := make([]VerifCacheEntry, 0)
+	if c.cache == nil {
+		return result
+	}
+	c.cache.Foreach(func(key interface{}, item *cache2go.CacheItem) {
+		entry := VerifCacheEntry{LifeSpan: item.LifeSpan(), CreatedOn: item.CreatedOn(), AccessedOn: item.AccessedOn()}
+		if k, ok := key.(string); ok {
+			entry.Key = k
+		}
+		if data, ok := item.Data().(cachedRevocationStatus); ok {
+			entry.Revoked = data.status.Revoked
+			entry.ValidUntil = data.validUntil
+		}
+		result = append(result, entry)
+	})
+	return result
+}
